@@ -321,12 +321,26 @@ CLAIMED["C08"] = {
     "with a generated sample equals log_prob evaluated at that sample "
     "(Bz(Tf x) + Dj x), supplied latent points use the base density or the "
     "alternative distribution exactly as documented, the array interface "
-    "agrees with the model and leaves it in eval mode.",
+    "agrees with the model and leaves it in eval mode. Proposal layer "
+    "(reparameterisation as an abstract bijection Rf/Ri with log-Jacobians "
+    "RJ/RiJ): FlowProposal.forward_pass returns Tf(Rf p) with density "
+    "Bz(Tf(Rf p)) + Dj(Rf p) + RJ(p); FlowProposal.backward_pass (with "
+    "discarding of non-finite densities, prior-bounds filtering through the "
+    "inlined check_prior_bounds, with and without returned latent points) "
+    "attaches to every returned point exactly the density forward_pass "
+    "computes for it, returns only in-bounds points and keeps x / log_prob "
+    "/ z aligned. Failed obligations are replayed on a concrete affine "
+    "instance built from the package's own NFlow / FlowModel / FlowProposal "
+    "classes (replay/c08_flow.py).",
     "note": "NOT decided here: that the built-in RealNVP / MAF / NSF "
     "transforms are bijections with correct log-determinants (glasflow / "
     "torch code: assumed as the abstract-flow axioms), normalisation of the "
     "density (an integral), floating-point tolerances, conditional inputs "
-    "(conditional=None only).",
+    "(conditional=None only); FlowProposal.rescale / inverse_rescale are "
+    "assumed to implement one bijection with cancelling Jacobians (C07 "
+    "proves that for the elementary maps only); the importance sampler's "
+    "proposal (compute_log_Q / update_log_q) and the augmented / GW "
+    "proposals are not under contract.",
 }
 
 NA = {
